@@ -87,6 +87,26 @@ def run(eng: Engine, ck: Check):
         ck.ob('R-C12-MATCH', omr, lp, 'futures are completed after the internal handlers and the event emission ran', bool(em) and p is None,
               'completion loop reachable before emit', construct='complete after handlers')
 
+    # the emission that precedes the completion loop must not be able to raise: a failing listener (application code) would otherwise
+    # propagate out of on_message_received and the reply would never complete its requests
+    escm = eng.escape()
+    em_fn = eng.func('events.py', 'EventBus.emit')
+    ck.visited(em_fn)
+    leaked = sorted(escm.of(em_fn))
+    ck.ob('R-C12-MATCH', em_fn, em_fn.node, 'EventBus.emit contains every listener failure: calling AND awaiting a listener happen inside the try that logs and goes on '
+          '(on_message_received awaits emit() before it completes the waiting requests)', not leaked,
+          f'exceptions can leave emit(): {leaked} — an async listener that raises while a reply is being handled aborts on_message_received before the '
+          'completion loop; every request waiting for that reply times out although it was answered', construct='emit contains listener failures')
+    emits = [x for x in calls_on(omr.node, 'emit')]
+    pre = []
+    for st in omr.node.body:
+        if any(isinstance(n, ast.For) and mentions_attr(n.iter, '_expected_response_futures') for n in ast.walk(st)):
+            break
+        pre.append(st)
+    typed = sorted({t for st in pre for t in escm._stmt(omr, st, frozenset()) if t not in ('*', '<cancel>')})
+    ck.ob('R-C12-MATCH', omr, omr.node, 'no typed exception can leave on_message_received before the completion loop', not typed, f'{typed}',
+          construct='completion loop reached')
+
     # ---- R-C12-MATCH: ExpectedResponse.matches
     m = eng.func(NET, 'ExpectedResponse.matches')
     ck.visited(m)
